@@ -30,7 +30,6 @@ from engine import tlc, tla
 from harness import backends as B
 
 SPEC = os.path.join(tlc.SPEC_DIR, 'Cleanup.tla')
-TRACE_SPEC = os.path.join(tlc.SPEC_DIR, 'trace', 'Trace_Cleanup.tla')
 
 # ------------------------------------------------------------------------------------------------
 # the lattice world
@@ -922,9 +921,7 @@ def verdicts(ctx, name, runs, universe, covs, how):
 # the check
 # ------------------------------------------------------------------------------------------------
 def expected_actions(rec, full):
-    acts = {'Store', 'PutJunk', 'Configure'}
-    if rec['supportsTs'] or not full or True:
-        acts.add('ChooseStrategy')
+    acts = {'Store', 'PutJunk', 'Configure', 'ChooseStrategy'}
     if full:
         if rec['hasLevelLoc'] and not (rec['probe'] and rec['probeRaises']):
             acts.add('LevelLocationRaises' if rec['raises'] else 'CleanupDirectory')
@@ -972,25 +969,30 @@ def run(ctx):
         raise tlc.MachineryError('the check must run with TZ=UTC (thresholds are given as ISO times)')
     tlc.sany(SPEC)
     bks = all_backends()
-    byname = {b.name: b for b in bks}
-    feats = {b.name: measure(ctx, b, SMALL) for b in bks}
-    feats_big = {b.name: measure(ctx, b, BIG) for b in bks}
+    try:
+        feats = {b.name: measure(ctx, b, SMALL) for b in bks}
+        feats_big = {b.name: measure(ctx, b, BIG) for b in bks}
+    except BaseException:
+        drop_root(ctx)
+        raise
     classes = {}
     for b in bks:
         classes.setdefault(feature_key(feats[b.name]), []).append(b)
     ctx.log('backend feature classes: %s' % [[b.name for b in m] for m in classes.values()])
     ctx.sample({'kind': 'measured backend features (constants of Cleanup.tla)',
                 'features': {n: {k: v for k, v in f.items() if k != 'name'} for n, f in feats.items() if n in ('file-tc', 'file-tms', 'file-quadkey', 'geopackage-level')}})
-    sites = {b.name: Site(ctx, b) for b in bks}
+    sites = {}
     try:
-        return _run(ctx, thorough, bks, byname, feats, feats_big, classes, sites)
+        for b in bks:
+            sites[b.name] = Site(ctx, b)
+        return _run(ctx, thorough, bks, feats, feats_big, classes, sites)
     finally:
         for s in sites.values():
             s.close()
         drop_root(ctx)
 
 
-def _run(ctx, thorough, bks, byname, feats, feats_big, classes, sites):
+def _run(ctx, thorough, bks, feats, feats_big, classes, sites):
     covs = SMALL['covs']
     # ---- (M) exhaustive model checking, one run per feature class (complete extent) and per timestamp
     #      class (coverages, always the tile walk); runs in the background while the real caches are driven
